@@ -183,12 +183,24 @@ var schedules = map[string][]int{
 	"whole":       {1 << 30},
 }
 
+// signFlags are the signer flags of the case being run (set by drawFlags).
+var signFlags map[string]string
+
+// drawFlags picks signer flags whose effect depends on how the stream is consumed.
+func drawFlags(t *rapid.T, format string) map[string]string {
+	signFlags = nil
+	if format == "pe" && rapid.Bool().Draw(t, "page_hashes") {
+		signFlags = map[string]string{"page-hashes": "true"}
+	}
+	return signFlags
+}
+
 func signAndDigest(t *rapid.T, a *arts.Artifact, key string, h crypto.Hash, wrap func(io.Reader) io.Reader, server bool) (string, error) {
 	dir, done := scratch()
 	defer done()
 	p := filepath.Join(dir, a.Name)
 	os.WriteFile(p, a.Data, 0o644)
-	req := &pipe.Req{SigType: a.SigType, In: p, Key: key, Hash: h, WrapStream: wrap}
+	req := &pipe.Req{SigType: a.SigType, In: p, Key: key, Hash: h, WrapStream: wrap, Flags: signFlags}
 	var err error
 	if server {
 		err = env.SignServer(req)
@@ -222,6 +234,7 @@ func TestC09_ReadSchedule(t *testing.T) {
 		format := rapid.SampledFrom([]string{"pe", "msi", "jar", "apk", "apk", "ps", "cab", "appx", "vsix", "macho", "dmg", "pkg", "deb", "rpm"}).Draw(t, "format")
 		a := arts.Gen(t, format)
 		key, h := keyFor(t, format), hashFor(t, format)
+		flags := drawFlags(t, format)
 		sched := rapid.SampledFrom(names).Draw(t, "schedule")
 		if sched == "1-byte" && len(a.Data) > 300000 {
 			sched = "primes"
@@ -235,7 +248,7 @@ func TestC09_ReadSchedule(t *testing.T) {
 			return &scheduled{r: r, sizes: schedules[sched], eofWith: eofWith}
 		}, false)
 		splits := sched != "whole"
-		rec.Case(fmt.Sprintf("sched|%s|%s|%s|%v|%s|%s", format, arts.SHA(a.Data), sched, eofWith, key, h), "schedule/"+format+"/"+sched, splits)
+		rec.Case(fmt.Sprintf("sched|%s|%s|%s|%v|%s|%s|%v", format, arts.SHA(a.Data), sched, eofWith, key, h, flags), "schedule/"+format+"/"+sched, splits)
 		rec.Sample("schedule/"+sched, map[string]any{"format": format, "classes": a.Classes, "schedule": sched, "eof_with_data": eofWith, "bytes": len(a.Data)})
 		if err != nil {
 			evid.SaveCase("TestC09_ReadSchedule", map[string]any{"format": format, "classes": a.Classes, "schedule": sched, "eof_with_data": eofWith, "error": err.Error()})
@@ -373,6 +386,7 @@ func TestC09_Transport(t *testing.T) {
 		a := arts.Gen(t, format)
 		arts.APKBigMembers = true
 		key, h := keyFor(t, format), hashFor(t, format)
+		drawFlags(t, format)
 		want, err := signAndDigest(t, a, key, h, nil, false)
 		if err != nil {
 			t.Skipf("standalone signing failed (C01's subject): %v", err)
